@@ -46,6 +46,7 @@ raw_fixed!(13, usize, 2);
 raw_fixed!(16, u128, 3);
 raw_fixed!(17, u64, 5);
 raw_fixed!(18, u16, 4);
+raw_fixed!(19, u8, 0);
 
 impl Raw for Bvd {
     const KID: u8 = 14;
@@ -110,7 +111,8 @@ macro_rules! with_kind {
             15 => { type $t = bva::Bv; $e }
             16 => { type $t = bva::Bvf<u128, 3>; $e }
             17 => { type $t = bva::Bvf<u64, 5>; $e }
-            _ => { type $t = bva::Bvf<u16, 4>; $e }
+            18 => { type $t = bva::Bvf<u16, 4>; $e }
+            _ => { type $t = bva::Bvf<u8, 0>; $e }
         }
     };
 }
